@@ -1,4 +1,5 @@
 import CookModel.Lemmas.ExtLawsLocal
+import CookModel.Lemmas.C02LiftInter
 /-
   C02, single-flag locality in the PARSER, with the other extensions' constructs present.
 
@@ -169,9 +170,12 @@ def timerHasQ (rest : List Tok) : Bool :=
 /-- TIMER_REQUIRES_TIME: every timer has a quantity (and no modifier character after the `~`) -/
 def timerCore (ts : List Tok) : Bool := markerAll (fun k rest => k != .tilde || timerHasQ rest) ts
 
-/-- for every parser flag outside `G`, the block does not contain the syntax that flag reinterprets -/
+/-- for every parser flag outside `G`, the block does not contain the syntax that flag reinterprets
+    (INTERMEDIATE_PREPARATIONS alone, with COMPONENT_MODIFIERS in `G`: no `&` directly followed by `(`,
+    `interCore`) -/
 structure LocalTo (G : List Nat) (cs : CharSpec) (ts : List Tok) : Prop where
-  mods : (Gen.EXT_COMPONENT_MODIFIERS ∈ G ∧ Gen.EXT_INTERMEDIATE_PREPARATIONS ∈ G) ∨ modsCore ts = true
+  mods : (Gen.EXT_COMPONENT_MODIFIERS ∈ G ∧ (Gen.EXT_INTERMEDIATE_PREPARATIONS ∈ G ∨ interCore ts = true)) ∨
+    modsCore ts = true
   alias : Gen.EXT_COMPONENT_ALIAS ∈ G ∨ aliasCore ts = true
   range : Gen.EXT_RANGE_VALUES ∈ G ∨ rangeCore ts = true
   adv : Gen.EXT_ADVANCED_UNITS ∈ G ∨ advCore ts = true
@@ -303,10 +307,12 @@ theorem noModAhead_at {s : BP α} (h : noModAhead s.rest = true) :
 
 /-- `modifiers()`: both of its flags are in `G`, or there is nothing for it to consume -/
 theorem modifiersP_indG_loc (s : BP α)
-    (h : (Gen.EXT_COMPONENT_MODIFIERS ∈ G ∧ Gen.EXT_INTERMEDIATE_PREPARATIONS ∈ G) ∨ noModAhead s.rest = true) :
+    (h : (Gen.EXT_COMPONENT_MODIFIERS ∈ G ∧ (Gen.EXT_INTERMEDIATE_PREPARATIONS ∈ G ∨ interCore s.toks = true)) ∨
+      noModAhead s.rest = true) :
     IndG G (modifiersP (α := α)) s := by
-  rcases h with h | h
-  · exact (modifiersP_indGA h.1 h.2).all s
+  rcases h with ⟨h1, h2 | h2⟩ | h
+  · exact (modifiersP_indGA h1 h2).all s
+  · exact c02inter_modifiersP_indG s h1 h2
   · have h0 := modifiersP_noop s (noModAhead_at h)
     constructor
     · intro e _
@@ -316,10 +322,21 @@ theorem modifiersP_indG_loc (s : BP α)
     · rw [h0]
 
 theorem parseModifiers_indGA_loc (mtoks : List Tok) (pos : Nat)
-    (h : Gen.EXT_INTERMEDIATE_PREPARATIONS ∈ G ∨ mtoks = []) : IndGA G (parseModifiers (α := α) mtoks pos) := by
+    (h : Gen.EXT_INTERMEDIATE_PREPARATIONS ∈ G ∨ interCore mtoks = true) :
+    IndGA G (parseModifiers (α := α) mtoks pos) := by
   rcases h with h | h
   · exact parseModifiers_indGA h mtoks pos
-  · subst h; exact IndGA.of_indA (parseModifiers_nil_indA pos)
+  · exact IndGA.of_indA (c02inter_parseModifiers_indA mtoks pos h)
+
+/-- what `modifiers()` returns, under the clause of `modifiersP_indG_loc` -/
+theorem modifiersP_sat_loc (s : BP α)
+    (h : (Gen.EXT_COMPONENT_MODIFIERS ∈ G ∧ (Gen.EXT_INTERMEDIATE_PREPARATIONS ∈ G ∨ interCore s.toks = true)) ∨
+      noModAhead s.rest = true) :
+    Gen.EXT_INTERMEDIATE_PREPARATIONS ∈ G ∨ interCore (modifiersP s).1 = true := by
+  rcases h with ⟨_, h2 | h2⟩ | h
+  · exact Or.inl h2
+  · exact Or.inr (c02inter_modifiersP_interCore s h2)
+  · right; rw [modifiersP_noop _ (noModAhead_at h)]; rfl
 
 theorem parseAlias_indGA_loc (c : String) (toks : List Tok) (off : Nat)
     (h : Gen.EXT_COMPONENT_ALIAS ∈ G ∨ toks.any (fun t => t.kind == .or) = false) :
@@ -393,7 +410,7 @@ theorem timerHasQ_body {s : BP α} (hc : timerHasQ s.rest = true) {b : Body} (hb
 /-- the clauses at a marker token -/
 theorem local_after_marker {cs : CharSpec} {s : BP α} {t : Tok} (h : LocalTo G cs s.toks)
     (ht : s.toks[s.cur]? = some t) (hm : isMarker t.kind = true) :
-    ((Gen.EXT_COMPONENT_MODIFIERS ∈ G ∧ Gen.EXT_INTERMEDIATE_PREPARATIONS ∈ G) ∨
+    ((Gen.EXT_COMPONENT_MODIFIERS ∈ G ∧ (Gen.EXT_INTERMEDIATE_PREPARATIONS ∈ G ∨ interCore s.toks = true)) ∨
       noModAhead ({ s with cur := s.cur + 1 } : BP α).rest = true) ∧
     (t.kind = .tilde → Gen.EXT_TIMER_REQUIRES_TIME ∈ G ∨ timerHasQ ({ s with cur := s.cur + 1 } : BP α).rest = true) := by
   refine ⟨?_, ?_⟩
@@ -535,11 +552,8 @@ theorem ingredientP_indG_loc (s : BP α) (h : LocalTo G s.cs s.toks) : IndG G (i
     refine IndG.bindRO currentOffset_indA (by rw [currentOffset_run]) ?_
     intro modPos
     refine IndG.bindS (modifiersP_indG_loc _ hmk)
-      (Q := fun r _ => Gen.EXT_INTERMEDIATE_PREPARATIONS ∈ G ∨ r = []) ?_ ?_
-    · unfold Sat
-      rcases hmk with hg | hg
-      · exact Or.inl hg.2
-      · right; rw [modifiersP_noop _ (noModAhead_at hg)]
+      (Q := fun r _ => Gen.EXT_INTERMEDIATE_PREPARATIONS ∈ G ∨ interCore r = true) ?_ ?_
+    · exact modifiersP_sat_loc _ hmk
     intro mtoks s2 ht2 _ _ hmt
     refine IndG.bindRO currentOffset_indA (by rw [currentOffset_run]) ?_
     intro nameOffset
@@ -581,11 +595,8 @@ theorem cookwareP_indG_loc (s : BP α) (h : LocalTo G s.cs s.toks) : IndG G (coo
     refine IndG.bindRO currentOffset_indA (by rw [currentOffset_run]) ?_
     intro modPos
     refine IndG.bindS (modifiersP_indG_loc _ hmk)
-      (Q := fun r _ => Gen.EXT_INTERMEDIATE_PREPARATIONS ∈ G ∨ r = []) ?_ ?_
-    · unfold Sat
-      rcases hmk with hg | hg
-      · exact Or.inl hg.2
-      · right; rw [modifiersP_noop _ (noModAhead_at hg)]
+      (Q := fun r _ => Gen.EXT_INTERMEDIATE_PREPARATIONS ∈ G ∨ interCore r = true) ?_ ?_
+    · exact modifiersP_sat_loc _ hmk
     intro mtoks s2 ht2 _ _ hmt
     refine IndG.bindRO currentOffset_indA (by rw [currentOffset_run]) ?_
     intro nameOffset
